@@ -15,10 +15,11 @@ import MenelausVerif.Driver.LFR
 import MenelausVerif.Driver.ErrDetectors
 import MenelausVerif.Driver.PCACD
 import MenelausVerif.Driver.Adwin
+import MenelausVerif.Driver.HDM
 open MV.Driver
 
 def registry : List (List String → Option Machine) :=
-  [mkElection, mkLifecycle, mkSequential, mkEnsemble, mkNNSP, mkMD3, mkInject, mkLFR, mkErrDetectors, mkPCACD, mkAdwin]
+  [mkElection, mkLifecycle, mkSequential, mkEnsemble, mkNNSP, mkMD3, mkInject, mkLFR, mkErrDetectors, mkPCACD, mkAdwin, mkHDM]
 
 def mkMachine (ts : List String) : Option Machine :=
   registry.findSome? (fun f => f ts)
